@@ -98,6 +98,12 @@ type GenOpts struct {
 	// for byte, except for a timestamp (field 253) a few seconds later: a device re-sending a
 	// message, values related across consecutive messages.
 	RepeatPrev int
+	// ReservedBits: chance in 100 that a normal record header has reserved bits set (bit 4 of
+	// a definition header, bits 4 and 5 of a data header), which readers ignore.
+	ReservedBits int
+	// Unknown253: chance in 100 that an unknown message (or a known message without a field 253
+	// in the profile) carries a field numbered 253, uint32.
+	Unknown253 int
 	// DevDescribe: chance in 100 that a definition with developer fields is preceded by the
 	// developer_data_id and field_description messages that announce them.
 	DevDescribe int
@@ -693,6 +699,17 @@ func (g *PlanGen) Define(local byte, m uint16, knownMsg bool) {
 			def.Fields[pos] = fd
 		}
 	}
+	if g.O.Unknown253 > 0 && !used[253] && len(def.Fields) < 255 && (!knownMsg || p.Field(m, 253) == nil) && rng.Chance(g.O.Unknown253, 100) {
+		// field number 253 in a message the profile does not know, or in a known message whose
+		// profile has no field 253: an unknown field like any other (to be skipped without
+		// effect on the messages that follow), although it looks like a timestamp
+		used[253] = true
+		fd := ref.FieldDef{Num: 253, Size: 4, Base: 0x86}
+		pos := rng.Intn(len(def.Fields) + 1)
+		def.Fields = append(def.Fields, ref.FieldDef{})
+		copy(def.Fields[pos+1:], def.Fields[pos:])
+		def.Fields[pos] = fd
+	}
 	if g.O.Unknown > 0 && rng.Chance(g.O.Unknown/2, 100) {
 		def.HasDev = true
 		for k := rng.Intn(4); k > 0 && len(def.Dev) < 255; k-- {
@@ -724,6 +741,9 @@ func (g *PlanGen) Define(local byte, m uint16, knownMsg bool) {
 					ref.Record{Local: local, Data: [][]byte{{dd.Idx}, {dd.Num}, {bb}}})
 			}
 		}
+	}
+	if g.O.ReservedBits > 0 && rng.Chance(g.O.ReservedBits, 100) {
+		def.HdrBits = 0x10
 	}
 	g.P.Records = append(g.P.Records, def)
 	d := def
@@ -913,6 +933,9 @@ func (g *PlanGen) Data(local byte) {
 	}
 	if g.O.PostData != nil {
 		g.O.PostData(rng, def, r.Data)
+	}
+	if g.O.ReservedBits > 0 && !r.Compressed && rng.Chance(g.O.ReservedBits, 100) {
+		r.HdrBits = []byte{0x10, 0x20, 0x30}[rng.Intn(3)]
 	}
 	g.P.Records = append(g.P.Records, r)
 	rc := r
